@@ -15,6 +15,8 @@ package tree
 //@ ghost node.pidx int
 //@ ghost node.sub set[K]
 //@ ghost btree.val gmap[K]V
+//@ ghost btree.locN gmap[K]*node[K, V]
+//@ ghost btree.locI gmap[K]int
 
 // ---- structural invariant (C03), with one node `exc` allowed to be one key short ----
 // t.nodes is the set of nodes linked into t; x.owner names the tree for functions that only get a node.
@@ -54,12 +56,15 @@ package tree
 //@        && (t.compare(a, b) < 0 && t.compare(b, c) <= 0 ==> t.compare(a, c) < 0) && (t.compare(a, b) <= 0 && t.compare(b, c) < 0 ==> t.compare(a, c) < 0))
 //@ pred ordOK(t) =
 //@      (forall x *node[K, V], i int, j int {x.keys[i], x.keys[j]} :: t.nodes[x] && 0 <= i && i < j && j < x.n ==> t.compare(x.keys[i], x.keys[j]) < 0)
-//@   && (forall x *node[K, V], i int {x.keys[i]} :: t.nodes[x] && 0 <= i && i < x.n ==> x.sub[x.keys[i]] && t.val[x.keys[i]] == x.values[i])
+//@   && (forall x *node[K, V], i int {x.keys[i]} :: t.nodes[x] && 0 <= i && i < x.n ==> x.sub[x.keys[i]] && t.val[x.keys[i]] == x.values[i] && t.locN[x.keys[i]] == x && t.locI[x.keys[i]] == i)
+//@   && (forall x *node[K, V], kk K {x.sub[kk]} :: t.nodes[x] && x.sub[kk] ==> t.root.sub[kk])
 //@   && (forall x *node[K, V], j int, kk K {x.children[j].sub[kk]} :: t.nodes[x] && x.height > 0 && 0 <= j && j <= x.n && x.children[j].sub[kk] ==>
 //@        x.sub[kk] && (j < x.n ==> t.compare(kk, x.keys[j]) < 0) && (j > 0 ==> t.compare(x.keys[j-1], kk) < 0))
-//@   && (forall x *node[K, V], kk K, j int {x.sub[kk], hint(j)} :: t.nodes[x] && x.sub[kk] && 0 <= j && j <= x.n
+//@   && (forall x *node[K, V], kk K, j int {x.sub[kk], hint(j)} {x.sub[kk], hint(j-1)} {x.sub[kk], hint(j+1)} :: t.nodes[x] && x.sub[kk] && 0 <= j && j <= x.n
 //@        && (j > 0 ==> t.compare(x.keys[j-1], kk) < 0) && (j < x.n ==> t.compare(kk, x.keys[j]) < 0) ==> x.height > 0 && x.children[j].sub[kk])
 //@   && (forall x *node[K, V], kk K, i int {x.sub[kk], x.keys[i]} :: t.nodes[x] && x.sub[kk] && 0 <= i && i < x.n && t.compare(kk, x.keys[i]) == 0 ==> kk == x.keys[i])
+// the child c on the search path of k sits in a slot of its parent whose separators bracket k
+//@ pred pathFits(t, c, k) = (c.pidx < c.parent.n ==> t.compare(k, c.parent.keys[c.pidx]) < 0) && (c.pidx > 0 ==> t.compare(c.parent.keys[c.pidx-1], k) < 0)
 //@ pred mapOK(t) = structOK(t, nil, nil) && swo(t) && ordOK(t)
 // the abstract map: domain t.root.sub, values t.val
 
@@ -167,14 +172,19 @@ package tree
 // ---- mutations: the structural invariant is re-established (C03) ----
 
 //@ func btree.insertIntoLeaf
-//@   props C03
+//@   props C01 C03
 //@   noalloc
 //@   requires structOK(t, nil, nil) && t.nodes[x] && x.height == 0 && x.n < 15
 //@   requires C02: deadOK(t)
 //@   modifies x.n, x.keys, x.values
-//@   loop 0: invariant 0 <= idx && idx <= x.n
+//@   ghostinit p := 0
+//@   after call insertOne[0]: ghost p := callarg1
+//@   loop 0: invariant 0 <= idx && idx <= x.n && (forall i int {x.keys[i]} :: 0 <= i && i < idx ==> t.compare(k, x.keys[i]) >= 0)
 //@   ensures structOK(t, nil, nil) && x.n == old(x.n) + 1
 //@   ensures C02: deadOK(t)
+//@   ensures C01: 0 <= p && p <= old(x.n) && x.keys[p] == k && x.values[p] == v && (p < old(x.n) ==> t.compare(k, old(x.keys[p])) < 0)
+//@   ensures C01: forall i int {x.keys[i]} :: (0 <= i && i < p ==> x.keys[i] == old(x.keys[i]) && t.compare(k, x.keys[i]) >= 0) && (p < i && i <= old(x.n) ==> x.keys[i] == old(x.keys[i-1]))
+//@   ensures C01: forall i int {x.values[i]} :: (0 <= i && i < p ==> x.values[i] == old(x.values[i])) && (p < i && i <= old(x.n) ==> x.values[i] == old(x.values[i-1]))
 
 //@ func btree.siblings
 //@   props C03
@@ -321,7 +331,7 @@ package tree
 //@   props C03
 //@   requires pendOK(t, x, afterK)
 //@   requires C02: deadOK(t)
-//@   modifies t.root, t.nodes, all(x.n), all(x.keys), all(x.values), all(x.children), all(x.parent), all(x.pidx), all(x.owner), all(x.height)
+//@   modifies t.root, t.nodes, all(x.n), all(x.keys), all(x.values), all(x.children), all(x.parent), all(x.pidx), all(x.owner), all(x.height), t.val, t.locN, t.locI, all(x.sub)
 //@   loop 0: invariant pendOK(t, x, afterK) && deadOK(t) && (forall c *node[K, V] {t.nodes[c]} {old(t.nodes)[c]} :: old(t.nodes)[c] ==> t.nodes[c])
 //@   after assign right[0]: ghost right.owner := t
 //@   after assign right[0]: ghost right.height := x.height
@@ -348,15 +358,44 @@ package tree
 //@   ensures structOK(t, nil, nil)
 //@   ensures C02: deadOK(t)
 //@   ensures C02: forall c *node[K, V] {t.nodes[c]} {old(t.nodes)[c]} :: old(t.nodes)[c] ==> t.nodes[c]
+//@   trustens C01: ordOK(t) && (forall kk K {t.root.sub[kk]} :: t.root.sub[kk] <==> (old(t.root.sub)[kk])) && t.val == store(old(t.val), k, v)
 
 //@ func btree.Put
-//@   props C03
+//@   props C01 C03
 //@   requires structOK(t, nil, nil)
 //@   requires C02: deadOK(t)
-//@   modifies t.size, t.gen, t.root, t.nodes, all(t.root.n), all(t.root.keys), all(t.root.values), all(t.root.children), all(t.root.parent), all(t.root.pidx), all(t.root.owner), all(t.root.height)
+//@   modifies t.size, t.gen, t.root, t.nodes, all(t.root.n), all(t.root.keys), all(t.root.values), all(t.root.children), all(t.root.parent), all(t.root.pidx), all(t.root.owner), all(t.root.height), t.val, t.locN, t.locI, all(t.root.sub)
 //@   loop 0: invariant curr != nil && t.nodes[curr] && structOK(t, nil, nil)
 //@   ensures structOK(t, nil, nil)
 //@   ensures C02: deadOK(t) && popGrows(t) && ((t.gen == old(t.gen) && sameShape(t)) || t.gen == old(t.gen) + 1)
+//@   requires C01: swo(t) && ordOK(t)
+//@   ghostinit path := lambda c *node[K, V] :: false
+//@   ghostinit fnd := false
+//@   ghostinit fkey := k
+//@   ghostinit nx := lambda c *node[K, V] :: 0
+//@   after call searchNode[0]: assert hint(callresult0)
+//@   after call searchNode[0]: ghost path := store(path, curr, true)
+//@   after call searchNode[0]: ghost nx := store(nx, curr, callresult0)
+//@   after call searchNode[0]: ghost fnd := callresult1
+//@   after call searchNode[0]: ghost fkey := callresult1 ? curr.keys[callresult0] : k
+//@   loop 0: invariant C01: swo(t) && ordOK(t) && !fnd && !path[curr] && t.val == old(t.val) && t.root == old(t.root) && t.root.sub == old(t.root.sub)
+//@   loop 0: invariant C01: forall kk K {t.root.sub[kk]} :: t.root.sub[kk] && t.compare(k, kk) == 0 ==> curr.sub[kk]
+//@   loop 0: invariant C01: curr != t.root ==> path[curr.parent] && pathFits(t, curr, k) && path[t.root]
+//@   loop 0: invariant C01: forall c *node[K, V] {path[c]} :: path[c] ==> t.nodes[c] && c.height > curr.height && (c != t.root ==> path[c.parent] && pathFits(t, c, k))
+//@   loop 0: invariant C01: forall kk K {curr.sub[kk]} :: curr.sub[kk] ==> t.root.sub[kk]
+//@   loop 0: invariant C01: forall c *node[K, V], i int {path[c], c.keys[i]} :: path[c] && 0 <= i && i < c.n ==> t.compare(k, c.keys[i]) != 0
+//@   loop 0: invariant C01: forall c *node[K, V] {path[c]} :: path[c] ==> 0 <= nx[c] && nx[c] <= c.n && hint(nx[c]) && (nx[c] < c.n ==> t.compare(k, c.keys[nx[c]]) < 0) && (nx[c] > 0 ==> t.compare(c.keys[nx[c]-1], k) < 0) && (path[c.children[nx[c]]] || c.children[nx[c]] == curr)
+//@   before call insertIntoLeaf[0]: assert forall c *node[K, V], j int {path[c], hint(j)} :: path[c] && 0 <= j && j <= c.n && (j > 0 ==> t.compare(c.keys[j-1], k) < 0) && (j < c.n ==> t.compare(k, c.keys[j]) < 0) ==> j == nx[c]
+//@   before call insertIntoLeaf[0]: ghostmap c *node[K, V] . sub := path[c] ? store(c.sub, k, true) : c.sub
+//@   before call overfill[0]: ghostmap c *node[K, V] . sub := path[c] ? store(c.sub, k, true) : c.sub
+//@   after call insertIntoLeaf[0]: ghost t.val := store(t.val, k, v)
+//@   after call insertIntoLeaf[0]: ghost t.locI := lambda kk K :: kk == k ? callghost_p : ((t.locN[kk] == curr && t.locI[kk] >= callghost_p) ? t.locI[kk] + 1 : t.locI[kk])
+//@   after call insertIntoLeaf[0]: ghost t.locN := store(t.locN, k, curr)
+//@   ghost t.val := fnd ? store(t.val, fkey, v) : t.val
+//@   ensures C01: ordOK(t)
+//@   ensures C01: fnd ==> old(t.root.sub)[fkey] && t.compare(k, fkey) == 0 && t.root.sub == old(t.root.sub) && t.val == store(old(t.val), fkey, v) && t.size == old(t.size)
+//@   ensures C01: !fnd ==> (forall kk K {old(t.root.sub)[kk]} :: old(t.root.sub)[kk] ==> t.compare(k, kk) != 0) && t.size == old(t.size) + 1
+//@   ensures C01: !fnd ==> (forall kk K {t.root.sub[kk]} :: t.root.sub[kk] <==> (old(t.root.sub)[kk] || kk == k)) && t.val[k] == v && (forall kk K {t.val[kk]} :: kk != k ==> t.val[kk] == old(t.val)[kk])
 
 // ---- cursors (C02): safety and lost-detection ----
 // The comparator is assumed reflexive (part of "strict weak order given as a three-way compare").
